@@ -385,6 +385,7 @@ func GetBase(n int, newState bool, net *networks.Network) (*gen.Chain, *memory.D
 			}
 			b.dbs[ns] = d
 		}
+		b.Chain.Frozen = true
 	})
 	return b.Chain, b.dbs[newState].Copy()
 }
